@@ -33,6 +33,13 @@ pub enum Prov {
     BytesTrunc,
     /// read(reader, n, endianness) from bytes whose surplus bits are set
     ReadSurplus(bool),
+    /// produced by arithmetic: (v - ones(m)) built canonically, then `+= &ones(m)` with the operand
+    /// held in another zoo type (m = min(n, its capacity)); wraps around whenever v < 2^m - 1
+    AddVec(Tid),
+    /// produced by arithmetic: (v + c) built canonically, then `-= c` with a native integer c
+    SubNat(NatTy),
+    /// produced by logic: v | b where b (another zoo type) is longer than v and all ones above n
+    OrLonger(Tid),
 }
 
 impl Prov {
@@ -50,6 +57,9 @@ impl Prov {
             Prov::ShiftInOut(_) => "prov:shift-in-out",
             Prov::BytesTrunc => "prov:bytes-truncated",
             Prov::ReadSurplus(_) => "prov:read-surplus",
+            Prov::AddVec(_) => "prov:sum-with-other-type",
+            Prov::SubNat(_) => "prov:difference-with-native",
+            Prov::OrLonger(_) => "prov:or-with-longer",
         }
     }
 }
@@ -225,6 +235,44 @@ pub fn build<T: Subject>(bits: &Bits, prov: &Prov) -> T {
             };
             let mut rd: &[u8] = &bytes;
             T::read(&mut rd, n, e).expect("read of a fitting length from enough bytes")
+        }
+        Prov::AddVec(t2) => {
+            if n == 0 {
+                return build_canon::<T>(bits);
+            }
+            let m = n.min(fixed_cap(*t2).unwrap_or(n));
+            let md = pow2(n);
+            let b = Bits::ones(m);
+            let a = (bits.to_big() + &md - b.to_big()) % &md;
+            let za = build_canon::<T>(&Bits::from_big(&a, n)).wrap();
+            let zb = build_canon_z(*t2, &b);
+            let r = tab_arith::apply(&za, RhsRef::V(&zb), BinOp::Add, Form::AssignRef);
+            T::from_z(r).expect("same type")
+        }
+        Prov::SubNat(nty) => {
+            if n == 0 {
+                return build_canon::<T>(bits);
+            }
+            let c: u128 = (0x9E37_79B9_7F4A_7C15_F39C_C060_5CED_C835u128 | 1) & (*nty).maxv();
+            let md = pow2(n);
+            let a = (bits.to_big() + num_bigint::BigUint::from(c)) % &md;
+            let za = build_canon::<T>(&Bits::from_big(&a, n)).wrap();
+            let r = tab_arith::apply(&za, RhsRef::N(Nat::new(*nty, c)), BinOp::Sub, Form::OwnOwn);
+            T::from_z(r).expect("same type")
+        }
+        Prov::OrLonger(t2) => {
+            let c2 = fixed_cap(*t2).unwrap_or(n + 70);
+            if c2 <= n {
+                return build_canon::<T>(bits);
+            }
+            // b = the odd-indexed bits of v, then all ones above n; a = the even-indexed bits of v
+            let mut b = Bits(bits.0.iter().enumerate().map(|(i, &x)| x && i % 2 == 1).collect());
+            b.0.resize(c2.min(n + 70), true);
+            let a = Bits(bits.0.iter().enumerate().map(|(i, &x)| x && i % 2 == 0).collect());
+            let za = build_canon::<T>(&a).wrap();
+            let zb = build_canon_z(*t2, &b);
+            let r = tab_logic::apply(&za, RhsRef::V(&zb), BinOp::Or, Form::RefRef);
+            T::from_z(r).expect("same type")
         }
     }
 }
